@@ -22,6 +22,8 @@ type corpus struct {
 	render []string
 	richQ  []string // renderable queries with wildcards, regexps, ranges, lists, boosts: the shapes renderers treat specially
 	docs   []string
+	bigQ   []string // long queries (lists, chains, nesting past typical scratch capacities)
+	bigDoc []string // long JSON documents
 }
 
 func loadCorpus() *corpus {
@@ -36,6 +38,9 @@ func loadCorpus() *corpus {
 			continue
 		}
 		c.all = append(c.all, q)
+		if len(q) > 120 {
+			c.bigQ = append(c.bigQ, q)
+		}
 		if tag == 'R' {
 			c.render = append(c.render, q)
 			if strings.ContainsAny(q, "*?/[{(~^") {
@@ -49,6 +54,9 @@ func loadCorpus() *corpus {
 			continue
 		}
 		c.docs = append(c.docs, ln)
+		if len(ln) > 400 {
+			c.bigDoc = append(c.bigDoc, ln)
+		}
 	}
 	if len(c.all) == 0 || len(c.render) == 0 || len(c.docs) == 0 {
 		panic("empty corpus")
@@ -57,6 +65,9 @@ func loadCorpus() *corpus {
 }
 
 func (c *corpus) query(r *zsimrt.Rand) string {
+	if len(c.bigQ) > 0 && r.Intn(50) == 0 {
+		return c.bigQ[r.Intn(len(c.bigQ))]
+	}
 	if r.Intn(10) < 3 {
 		return genQuery(r, 0)
 	}
@@ -78,11 +89,14 @@ func (c *corpus) rich(r *zsimrt.Rand) string {
 }
 
 func (c *corpus) jsonDoc(r *zsimrt.Rand) string {
+	if len(c.bigDoc) > 0 && r.Intn(10) == 0 {
+		return c.bigDoc[r.Intn(len(c.bigDoc))]
+	}
 	return c.docs[r.Intn(len(c.docs))]
 }
 
 var (
-	gFields = []string{"a", "b", "title", "user_id", "ts", `my\ field`, "x.y", "k-1"}
+	gFields = []string{"a", "b", "title", "user_id", "ts", `my\ field`, "x.y", "k-1", "a", "b", "*", "f*", "7", `"q f"`}
 	gWords  = []string{"foo", "bar", "b*", "qu?ck", "*", "x", "hello", `esc\:aped`, "café", "TO", "and"}
 	gNums   = []string{"0", "1", "42", "-7", "3.14", "-0.5", "1e3", "007"}
 	gQuoted = []string{`"hello world"`, `"it's"`, `'single quoted'`, `"a AND b"`, `""`, `"wild * card"`}
@@ -106,9 +120,13 @@ func genValue(r *zsimrt.Rand) string {
 	// duplicates and unsorted lists are the norm rather than the exception
 	set := []string{pick(r, gWords), pick(r, gWords), pick(r, gNums)}
 	n := 2 + r.Intn(5)
-	out := "(" + set[r.Intn(3)]
+	if r.Intn(12) == 0 {
+		n = 15 + r.Intn(30) // past the capacities scratch buffers tend to have
+		set = append(set, pick(r, gWords), pick(r, gNums), pick(r, gQuoted))
+	}
+	out := "(" + set[r.Intn(len(set))]
 	for i := 1; i < n; i++ {
-		out += " OR " + set[r.Intn(3)]
+		out += " OR " + set[r.Intn(len(set))]
 	}
 	return out + ")"
 }
